@@ -327,7 +327,10 @@ def repo_state(repo):
 def seeds_for(ctx, n):
     """the five checks of the group draw the same histories for a given VERIF_SEED (they share one run)"""
     r = random.Random('graph-group/%d' % ctx.seed)
-    return [r.getrandbits(40) for _ in range(n)]
+    seeds = [r.getrandbits(40) for _ in range(n)]
+    # histories of their own in which remove_all is called with a filter that raises after its first match ('rf-' seeds)
+    r2 = random.Random('graph-group/raising-filters/%d' % ctx.seed)
+    return seeds + ['rf-%d' % r2.getrandbits(40) for _ in range(max(6, n // 12))]
 
 
 def run_generated(ctx, n, jobs=12):
@@ -553,6 +556,10 @@ def run_property(ctx, spec):
             # The constructor raises AttributeError; whatever the relations were, nothing may have changed (C15).  The
             # model's verdict on this call (it expects the task to exist) is replaced by that clause.
             stv = h['steps'][v // 100 - 1]
+            if stv['how'].get('raise_after') and stv['code'] == 19:
+                # remove_all with a caller's filter that raised: the model has no such filter; C15 judges the call below
+                kept.remove(v)
+                continue
             if stv['how'].get('bad_est') and stv['code'] == 1:
                 # likewise a negative estimate / spent next to relation arguments: RuntimeError, and nothing changed
                 prev = h['steps'][v // 100 - 2]['post'] if v // 100 >= 2 else EMPTY
@@ -576,6 +583,17 @@ def run_property(ctx, spec):
                                 'C15/NewTaskRel: the constructor raised AttributeError (custom attribute %r) and left relations changed, after %s (%s)'
                                 % (stv['how']['bad_kw'], describe_call(stv), origin),
                                 {'kind': 'ops', 'items': items_of(h, v // 100 - 1), 'origin': origin, 'call_index': v // 100 - 1,
+                                 'op': stv['op'], 'how': stv['how'], 'pre': prev, 'observed': {'post': stv['post']}})
+        for six, stv in enumerate(h['steps'][:upto]):
+            if stv['how'].get('raise_after') and stv['code'] == 19:
+                dist['filters_that_raised'] = dist.get('filters_that_raised', 0) + 1
+                prev = h['steps'][six - 1]['post'] if six >= 1 else EMPTY
+                if spec.pid == 'C15' and stv['post'] != prev:
+                    origin = ('corpus: ' + h['corpus']) if 'corpus' in h else 'generated history, seed %s' % h.get('seed')
+                    ctx.failure('C15/%s/filter-raised-after-a-match' % stv['op'][0],
+                                'C15/%s: the caller\'s filter raised after its first match and the call left the graph changed, after %s (%s)'
+                                % (stv['op'][0], describe_call(stv), origin),
+                                {'kind': 'ops', 'items': items_of(h, six), 'origin': origin, 'call_index': six,
                                  'op': stv['op'], 'how': stv['how'], 'pre': prev, 'observed': {'post': stv['post']}})
         for v in kept:
             if v % 100 == 98:
@@ -621,6 +639,21 @@ def replay_generic(ctx, spec, rep):
         print('replay: pre-state rebuilt exactly: %s' % rec.get('built_exactly'))
     else:
         h = ctx.impl_run('graph_impl', {'mode': 'ops', 'histories': [case['items']]})[0]
+        if (case.get('how') or {}).get('raise_after') and case.get('call_index') is not None and case['call_index'] < len(h['steps']):
+            # remove_all with a caller's filter that raises: judged on the implementation's states (the model has no such filter)
+            six = case['call_index']
+            st = h['steps'][six]
+            pre = h['steps'][six - 1]['post'] if six else EMPTY
+            print('replay: call %s' % describe_call(st))
+            print('replay: implementation outcome %s (%s)' % (OUTCOME.get(st['code'], st['code']), st['exc']))
+            print('replay: pre-state  %s' % json.dumps(pre))
+            print('replay: post-state %s' % json.dumps(st['post']))
+            if st['code'] == 19 and st['post'] != pre:
+                sig = 'C15/%s/filter-raised-after-a-match' % st['op'][0]
+                ctx.failure(sig, '%s: the caller\'s filter raised and the call left the graph changed (replayed)' % sig, case)
+            ctx.coverage.update(evaluations=1, distinct_nontrivial=1, rule='replay of one case (judged on the observed states)',
+                                samples=[{'op': st['op'], 'how': st['how']}])
+            return
         vs = coq_verdicts(ctx, spec.which, [h], stem='graphreplay', jobs=1)[0]
         want = [x for x in vs if x // 100 - 1 == case.get('call_index')]
         v = (want or vs or [0])[0]
